@@ -77,7 +77,7 @@ func cmdPatternTraces(args []string) {
 	seed := fs.Int64("seed", 1, "seed")
 	worlds := fs.Int("worlds", 3, "fact states per pattern")
 	flagp := fs.Float64("flagp", 0, "probability of ReturnErrOnFailedRuleEvaluation")
-	variants := []string{"fresh", "reloaded", "second", "multi"}
+	variants := []string{"fresh", "reloaded", "second", "multi", "json", "sharedctx"}
 	fs.Parse(args)
 	r := rand.New(rand.NewSource(*seed))
 	f, err := os.Open(*in)
@@ -139,7 +139,7 @@ func cmdPatternTraces(args []string) {
 			if k > 0 && r.Intn(2) == 0 {
 				w.F.I = bit()
 			}
-			c := &Case{ID: id, GRL: prog.GRL(), Parts: prog.Parts(2), RulesJS: rules, Variant: variants[r.Intn(len(variants))], Profile: "pattern", Listener: 1,
+			c := &Case{ID: id, GRL: prog.GRL(), JSONRules: prog.JSONText(), Parts: prog.Parts(2), RulesJS: rules, Variant: variants[r.Intn(len(variants))], Profile: "pattern", Listener: 1,
 				Counted: json.RawMessage(`{"k":"none"}`), Other: &World{F: &Fact{X: bit(), I: bit(), Arr: []int64{bit(), bit()}, M: map[string]int64{"a": 0, "b": 0},
 					P: &Sub{}, Q: &Sub{}, Spare: &Sub{V: 7, S: "sp"}}, N: bit(), HasN: true},
 				Calls: []CallCfg{{Mode: "exec", World: w, Max: uint64(2 + r.Intn(3)), CancelAt: -1, Flag: r.Float64() < *flagp}}}
